@@ -418,6 +418,17 @@ func genRowLine(r *h.Rand, odd bool, big bool) genRow {
 	return genRow{line: line, min: mn, max: mx, tagset: tags}
 }
 
+// safeRange: r.Range for bounds whose distance may not fit in int64
+func safeRange(r *h.Rand, lo, hi int64) int64 {
+	if hi <= lo {
+		return lo
+	}
+	if d := hi - lo; d < 0 || d == math.MaxInt64 {
+		return h.Pick(r, []int64{lo, hi, 0, lo/2 + hi/2})
+	}
+	return r.Range(lo, hi)
+}
+
 func genCase(r *h.Rand, big bool) []string {
 	odd := r.Chance(0.25)
 	nrows := 1 + r.Intn(7)
@@ -458,10 +469,18 @@ func genCase(r *h.Rand, big bool) []string {
 		case 3:
 			return mn + 1, mx + 1
 		default:
-			a := r.Range(mn-2, mx)
+			lo := mn
+			if lo > math.MinInt64+2 {
+				lo -= 2
+			}
+			hi := mx
+			if hi < math.MaxInt64-2 {
+				hi += 2
+			}
+			a := safeRange(r, lo, mx)
 			b := a
 			if mx > a {
-				b = r.Range(a, mx+2)
+				b = safeRange(r, a, hi)
 			}
 			return a, b
 		}
